@@ -5,6 +5,7 @@ import TmVerif.Base.Proto
 import TmVerif.Master.Model
 import TmVerif.Master.SrvState
 import TmVerif.Master.LoaderDecode
+import TmVerif.Traits.Model
 open TmVerif TmVerif.Proto TmVerif.Sched TmVerif.Master
 
 def sortNats (l : List Nat) : List Nat := (l.toArray.qsort (· < ·)).toList
@@ -325,11 +326,38 @@ def line (ws : List String) : Option String :=
   | _ => none
 end DecodeLines
 
+/-! Function-level lines of the trait code (`TmVerif.Traits`): names are interned naturals (0 = 'invalid'),
+    code tables are `name:value` lists in dict order with the VALUES as Python has them (powers of two).
+      ftrt <code> <names csv> <use_invalid 0|1> <add_new 0|1>   -> <mask> <code>
+      fcode <names csv>                                          -> <code> -/
+namespace TraitLines
+open TmVerif.Traits
+
+def exp? (v : Nat) : Option Nat := (List.range 200).find? (fun e => 2 ^ e = v)
+
+def pCode (s : String) : Option Code :=
+  (csv s).mapM (fun t => match t.splitOn ":" with
+    | [n, v] => do pure ((← n.toNat?), (← exp? (← v.toNat?)))
+    | _ => none)
+
+def shCode (c : Code) : String := showCsv (c.map (fun p => s!"{p.1}:{2 ^ p.2}"))
+
+def line (ws : List String) : Option String :=
+  match ws with
+  | ["ftrt", code, names, ui, an] => do
+    let r := encode (← pCode code) (← natList? names) (← bool? ui) (← bool? an)
+    pure s!"{r.1} {shCode r.2}"
+  | ["fcode", names] => do pure (shCode (createCode (← natList? names)))
+  | _ => none
+end TraitLines
+
 def stepLine' (s : DSt) (ws : List String) : DSt × String :=
   match ws with
   | w :: _ =>
     if w = "fadj" || w = "fevt" || w = "fpres" || w = "fpend" then
       (s, (SrvLines.line ws).getD "bad-op")
+    else if w = "ftrt" || w = "fcode" then
+      (s, (TraitLines.line ws).getD "bad-op")
     else if w = "fapp" || w = "fbkt" || w = "fsrv" || w = "fidg" || w = "frld" then
       (s, (DecodeLines.line ws).getD "bad-op")
     else stepLine s ws
